@@ -87,18 +87,21 @@ Proof.
     rewrite IH; auto.
 Qed.
 
-Lemma parse_nat_dec n rest : stop rest -> parse_nat (dec_N n ++ rest) = Some (n, rest).
+Lemma scan_float_tail_stop rest : stop rest -> scan_float_tail rest = Some (false, rest).
 Proof.
-  intro S. unfold parse_nat. rewrite take_digits_app; auto using dec_N_digits.
+  destruct rest as [|c r]; [reflexivity|]. simpl. intros [-> | [-> | ->]]; reflexivity.
+Qed.
+
+Lemma parse_num_dec n rest : stop rest -> parse_num (dec_N n ++ rest) = Some (Some n, rest).
+Proof.
+  intro S. unfold parse_num. rewrite take_digits_app; auto using dec_N_digits.
   destruct (dec_N n) as [|x t] eqn:E; [exfalso; eapply dec_N_nonempty; eauto|].
   assert (L : (x =? 48) && negb (match t with [] => true | _ => false end) = false).
   { destruct (N.eq_dec n 0) as [->|Hn].
     - vm_compute in E. inversion E; subst. reflexivity.
     - destruct (dec_N_lead n Hn) as (d & r & Hd & _ & Hz). rewrite Hd in E. inversion E; subst.
       apply N.eqb_neq in Hz. rewrite Hz. reflexivity. }
-  rewrite L. rewrite <- E, dec_N_val.
-  destruct rest as [|c r]; auto. simpl in S.
-  destruct S as [-> | [-> | ->]]; reflexivity.
+  rewrite L. rewrite <- E, dec_N_val. rewrite scan_float_tail_stop by exact S. reflexivity.
 Qed.
 
 (** * Strings *)
@@ -170,7 +173,12 @@ Fixpoint fuel_needed (j : json) : nat :=
   end.
 
 Lemma pv_minus f r :
-  parse_value (S f) (45 :: r) = match parse_nat r with Some (n, r') => Some (JInt (- Z.of_N n), r') | None => None end.
+  parse_value (S f) (45 :: r) =
+  match parse_num r with
+  | Some (Some n, r') => Some (JInt (- Z.of_N n), r')
+  | Some (None, r') => Some (JFloat 0, r')
+  | None => None
+  end.
 Proof. reflexivity. Qed.
 Lemma pv_str f r :
   parse_value (S f) (34 :: r) = match parse_str_body r with Some (t, r') => Some (JStr t, r') | None => None end.
@@ -187,7 +195,11 @@ Lemma pv_obj f r :
 Proof. reflexivity. Qed.
 Lemma pv_digit f d r : isdig d ->
   parse_value (S f) (d :: r) =
-  match parse_nat (d :: r) with Some (n, r') => Some (JInt (Z.of_N n), r') | None => None end.
+  match parse_num (d :: r) with
+  | Some (Some n, r') => Some (JInt (Z.of_N n), r')
+  | Some (None, r') => Some (JFloat 0, r')
+  | None => None
+  end.
 Proof.
   intro H. unfold isdig in H. cbn [parse_value].
   replace (d =? 110) with false by (symmetry; apply N.eqb_neq; lia).
@@ -228,45 +240,112 @@ Lemma pm_S pv g r0 :
   end.
 Proof. reflexivity. Qed.
 
-(** first byte of a rendering: never a closing bracket (so "[" X is not mistaken for "[]") *)
-Lemma render_head j : no_float j = true -> exists b r, render j = b :: r /\ b <> 93 /\ b <> 125.
+(** * Floats: any printer whose output the parser reads as ONE float token (and stops) *)
+Definition float_token (pf : N -> bytes) : Prop :=
+  forall b rest, stop rest -> parse_value 1 (pf b ++ rest) = Some (JFloat 0, rest).
+
+(** a scalar does not need more fuel *)
+Lemma pv_float_fuel f s r : parse_value 1 s = Some (JFloat 0, r) -> parse_value (S f) s = Some (JFloat 0, r).
 Proof.
-  destruct j; simpl; intro NF; try discriminate.
+  destruct s as [|b t]; [discriminate|]. cbn [parse_value].
+  destruct (b =? 110); [auto|]. destruct (b =? 116); [auto|]. destruct (b =? 102); [auto|]. destruct (b =? 34); [auto|].
+  destruct (b =? 91).
+  { destruct (starts_with 93 t); intro H; [inversion H | cbn [parse_elems] in H; discriminate H]. }
+  destruct (b =? 123).
+  { destruct (starts_with 125 t); intro H; [inversion H | cbn [parse_members] in H; discriminate H]. }
+  auto.
+Qed.
+
+Lemma float_token_head pf : float_token pf -> forall b, exists h r, pf b = h :: r /\ h <> 93 /\ h <> 125.
+Proof.
+  intros H b. specialize (H b [] I). rewrite app_nil_r in H.
+  destruct (pf b) as [|h r]; [discriminate H|]. exists h, r. split; [reflexivity|].
+  split; intro E; subst h; cbn in H; discriminate H.
+Qed.
+
+(** the simplest printer that qualifies (used to instantiate the general theorem on float-free trees) *)
+Definition pf_zero : N -> bytes := fun _ => [48; 46; 48].
+Lemma pf_zero_token : float_token pf_zero.
+Proof.
+  intros b rest St. destruct rest as [|c r]; [reflexivity|]. simpl in St.
+  destruct St as [-> | [-> | ->]]; reflexivity.
+Qed.
+
+Lemma render_with_nofloat pf : forall j, no_float j = true -> render_with pf j = render j.
+Proof.
+  induction j using json_ind'; intro NF; try reflexivity.
+  - discriminate.
+  - simpl in NF. rewrite forallb_forall in NF. cbn [render_with render]. f_equal. f_equal. f_equal.
+    apply map_ext_in. intros x Hx. rewrite Forall_forall in H. auto.
+  - simpl in NF. rewrite forallb_forall in NF. cbn [render_with render]. f_equal. f_equal. f_equal.
+    apply map_ext_in. intros [k v] Hx. rewrite Forall_forall in H. f_equal. f_equal.
+    apply (H (k, v) Hx). exact (NF (k, v) Hx).
+Qed.
+
+Lemma zero_floats_nofloat : forall j, no_float j = true -> zero_floats j = j.
+Proof.
+  induction j using json_ind'; intro NF; try reflexivity.
+  - discriminate.
+  - simpl in NF. rewrite forallb_forall in NF. cbn [zero_floats]. f_equal.
+    rewrite <- (map_id l) at 2. apply map_ext_in. intros x Hx. rewrite Forall_forall in H. auto.
+  - simpl in NF. rewrite forallb_forall in NF. cbn [zero_floats]. f_equal.
+    rewrite <- (map_id l) at 2. apply map_ext_in. intros [k v] Hx. rewrite Forall_forall in H. f_equal.
+    apply (H (k, v) Hx). exact (NF (k, v) Hx).
+Qed.
+
+Lemma render_with_model : forall j, render_with render_float j = render j.
+Proof.
+  induction j using json_ind'; try reflexivity.
+  - cbn [render_with render]. f_equal. f_equal. f_equal. apply map_ext_in. intros x Hx. rewrite Forall_forall in H. auto.
+  - cbn [render_with render]. f_equal. f_equal. f_equal. apply map_ext_in. intros [k v] Hx. rewrite Forall_forall in H.
+    f_equal. f_equal. apply (H (k, v) Hx).
+Qed.
+
+Section AnyPrinter.
+Variable pf : N -> bytes.
+Hypothesis Hpf : float_token pf.
+
+(** first byte of a rendering: never a closing bracket (so "[" X is not mistaken for "[]") *)
+Lemma render_head j : exists b r, render_with pf j = b :: r /\ b <> 93 /\ b <> 125.
+Proof.
+  destruct j; cbn [render_with render].
   - eexists _, _. split; [reflexivity|]. lia.
   - destruct b; eexists _, _; (split; [reflexivity|]); lia.
   - destruct z; simpl.
     + destruct (dec_N_head (Z.to_N 0)) as (d & r & E & D). exists d, r. unfold isdig in D. split; auto. lia.
     + destruct (dec_N_head (Z.to_N (Z.pos p))) as (d & r & E & D). exists d, r. unfold isdig in D. split; auto. lia.
     + eexists _, _. split; [reflexivity|]. lia.
+  - apply float_token_head. exact Hpf.
   - eexists _, _. split; [reflexivity|]. lia.
   - eexists _, _. split; [reflexivity|]. lia.
   - eexists _, _. split; [reflexivity|]. lia.
 Qed.
 
 Definition reads (f : nat) (x : json) : Prop :=
-  forall rest, stop rest -> parse_value f (render x ++ rest) = Some (x, rest).
+  forall rest, stop rest -> parse_value f (render_with pf x ++ rest) = Some (zero_floats x, rest).
 
 Lemma parse_elems_render f : forall l g rest,
   l <> [] -> Forall (reads f) l -> (length l <= g)%nat ->
-  parse_elems (parse_value f) g (join 44 (map render l) ++ 93 :: rest) = Some (l, rest).
+  parse_elems (parse_value f) g (join 44 (map (render_with pf) l) ++ 93 :: rest) = Some (map zero_floats l, rest).
 Proof.
   induction l as [|x l IH]; intros g rest Hne F Hg; [congruence|].
   inversion F as [|? ? Hx Hl]; subst.
   destruct g as [|g]; [simpl in Hg; lia|].
   destruct l as [|y l'].
   - cbn [map join]. rewrite pe_S, Hx by (simpl; auto). reflexivity.
-  - change (join 44 (map render (x :: y :: l'))) with (render x ++ 44 :: join 44 (map render (y :: l'))).
+  - change (join 44 (map (render_with pf) (x :: y :: l'))) with (render_with pf x ++ 44 :: join 44 (map (render_with pf) (y :: l'))).
     rewrite <- app_assoc. cbn [app]. rewrite pe_S, Hx by (simpl; auto).
     change (44 =? 44) with true. cbv iota.
     rewrite IH; auto; [congruence | simpl in *; lia].
 Qed.
 
 Definition member_bytes (kv : bytes * json) : bytes :=
-  match kv with (k, v) => render_string k ++ 58 :: render v end.
+  match kv with (k, v) => render_string k ++ 58 :: render_with pf v end.
+Definition member_zero (kv : bytes * json) : bytes * json := match kv with (k, v) => (k, zero_floats v) end.
 
 Lemma parse_members_render f : forall l g rest,
   l <> [] -> Forall (fun kv => reads f (snd kv)) l -> (length l <= g)%nat ->
-  parse_members (parse_value f) g (join 44 (map member_bytes l) ++ 125 :: rest) = Some (l, rest).
+  parse_members (parse_value f) g (join 44 (map member_bytes l) ++ 125 :: rest) = Some (map member_zero l, rest).
 Proof.
   induction l as [|[k v] l IH]; intros g rest Hne F Hg; [congruence|].
   inversion F as [|? ? Hx Hl]; subst. simpl in Hx.
@@ -275,8 +354,8 @@ Proof.
             parse_members (parse_value f) (S g) (member_bytes (k, v) ++ tail) =
             match tail with
             | b :: r =>
-                if b =? 44 then match parse_members (parse_value f) g r with Some (xs, r') => Some ((k, v) :: xs, r') | None => None end
-                else if b =? 125 then Some ([(k, v)], r)
+                if b =? 44 then match parse_members (parse_value f) g r with Some (xs, r') => Some ((k, zero_floats v) :: xs, r') | None => None end
+                else if b =? 125 then Some ([(k, zero_floats v)], r)
                 else None
             | [] => None
             end).
@@ -299,55 +378,51 @@ Proof.
 Qed.
 
 Lemma render_obj_eq l :
-  render (JObj l) = 123 :: join 44 (map member_bytes l) ++ [125].
+  render_with pf (JObj l) = 123 :: join 44 (map member_bytes l) ++ [125].
+Proof. reflexivity. Qed.
+Lemma zero_obj_eq l : zero_floats (JObj l) = JObj (map member_zero l).
 Proof. reflexivity. Qed.
 
-Theorem parse_value_render : forall j, no_float j = true ->
-  forall fuel, (fuel_needed j <= fuel)%nat -> reads fuel j.
+Theorem parse_value_render_with : forall j fuel, (fuel_needed j <= fuel)%nat -> reads fuel j.
 Proof.
-  induction j using json_ind'; intros NF fuel Hf rest St;
+  induction j using json_ind'; intros fuel Hf rest St;
     (destruct fuel as [|f]; [simpl in Hf; lia|]).
   - reflexivity.
   - destruct b; reflexivity.
   - destruct z.
-    + change (render (JInt 0)) with (dec_N 0). destruct (dec_N_head 0) as (d & r & E & D).
+    + change (render_with pf (JInt 0)) with (dec_N 0). destruct (dec_N_head 0) as (d & r & E & D).
       rewrite E. cbn [app]. rewrite pv_digit by exact D.
-      change (d :: r ++ rest) with ((d :: r) ++ rest). rewrite <- E, parse_nat_dec by exact St. reflexivity.
-    + change (render (JInt (Z.pos p))) with (dec_N (N.pos p)). destruct (dec_N_head (N.pos p)) as (d & r & E & D).
+      change (d :: r ++ rest) with ((d :: r) ++ rest). rewrite <- E, parse_num_dec by exact St. reflexivity.
+    + change (render_with pf (JInt (Z.pos p))) with (dec_N (N.pos p)). destruct (dec_N_head (N.pos p)) as (d & r & E & D).
       rewrite E. cbn [app]. rewrite pv_digit by exact D.
-      change (d :: r ++ rest) with ((d :: r) ++ rest). rewrite <- E, parse_nat_dec by exact St. reflexivity.
-    + change (render (JInt (Z.neg p))) with (45 :: dec_N (N.pos p)). cbn [app]. rewrite pv_minus, parse_nat_dec by exact St. reflexivity.
-  - discriminate.
-  - simpl render. unfold render_string. cbn [app]. rewrite pv_str, <- app_assoc. cbn [app].
+      change (d :: r ++ rest) with ((d :: r) ++ rest). rewrite <- E, parse_num_dec by exact St. reflexivity.
+    + change (render_with pf (JInt (Z.neg p))) with (45 :: dec_N (N.pos p)). cbn [app]. rewrite pv_minus, parse_num_dec by exact St. reflexivity.
+  - cbn [render_with zero_floats]. apply pv_float_fuel. apply Hpf. exact St.
+  - cbn [render_with render zero_floats]. unfold render_string. cbn [app]. rewrite pv_str, <- app_assoc. cbn [app].
     rewrite parse_str_body_render. reflexivity.
-  - simpl render. cbn [app]. rewrite pv_arr, <- app_assoc. cbn [app].
+  - cbn [render_with zero_floats]. cbn [app]. rewrite pv_arr, <- app_assoc. cbn [app].
     destruct l as [|x l'].
     + reflexivity.
-    + assert (Hd : starts_with 93 (join 44 (map render (x :: l')) ++ 93 :: rest) = false).
-      { simpl in NF. apply andb_true_iff in NF. destruct NF as [NFx _].
-        destruct (render_head x NFx) as (b & r & E & N1 & _).
+    + assert (Hd : starts_with 93 (join 44 (map (render_with pf) (x :: l')) ++ 93 :: rest) = false).
+      { destruct (render_head x) as (b & r & E & N1 & _).
         cbn [map]. destruct l'; cbn [join map]; rewrite E; cbn [app starts_with]; apply N.eqb_neq; auto. }
       assert (Hlen : (length (x :: l') <= f)%nat) by (cbn [fuel_needed] in Hf; lia).
       assert (Hall : Forall (reads f) (x :: l')).
-      { change (forallb no_float (x :: l') = true) in NF. rewrite forallb_forall in NF.
-        rewrite Forall_forall in *. intros y Hy. apply H; auto.
+      { rewrite Forall_forall in *. intros y Hy. apply H; auto.
         assert ((fuel_needed y <= list_max (map fuel_needed (x :: l')))%nat) by (apply list_max_in, in_map; auto).
         cbn [fuel_needed] in Hf. lia. }
       rewrite Hd, (parse_elems_render f (x :: l') f rest); auto. congruence.
-  - rewrite render_obj_eq. cbn [app]. rewrite pv_obj, <- app_assoc. cbn [app].
+  - rewrite render_obj_eq, zero_obj_eq. cbn [app]. rewrite pv_obj, <- app_assoc. cbn [app].
     destruct l as [|x l'].
     + reflexivity.
     + assert (Hd : starts_with 125 (join 44 (map member_bytes (x :: l')) ++ 125 :: rest) = false).
       { destruct x as [k v]. cbn [map]. destruct l'; cbn [join map]; unfold member_bytes at 1, render_string; reflexivity. }
       assert (Hlen : (length (x :: l') <= f)%nat) by (cbn [fuel_needed] in Hf; lia).
       assert (Hall : Forall (fun kv => reads f (snd kv)) (x :: l')).
-      { change (forallb (fun kv => match kv with (_, v) => no_float v end) (x :: l') = true) in NF.
-        rewrite forallb_forall in NF.
-        rewrite Forall_forall in *. intros y Hy. apply H; auto.
-        - specialize (NF y Hy). destruct y; auto.
-        - assert ((fuel_needed (snd y) <= list_max (map (fun kv : bytes * json => let (_, v) := kv in fuel_needed v) (x :: l')))%nat).
-          { apply list_max_in. apply in_map_iff. exists y. split; auto. destruct y; reflexivity. }
-          cbn [fuel_needed] in Hf. lia. }
+      { rewrite Forall_forall in *. intros y Hy. apply H; auto.
+        assert ((fuel_needed (snd y) <= list_max (map (fun kv : bytes * json => let (_, v) := kv in fuel_needed v) (x :: l')))%nat).
+        { apply list_max_in. apply in_map_iff. exists y. split; auto. destruct y; reflexivity. }
+        cbn [fuel_needed] in Hf. lia. }
       rewrite Hd, (parse_members_render f (x :: l') f rest); auto. congruence.
 Qed.
 
@@ -372,36 +447,34 @@ Proof.
     rewrite app_length. cbn [length] in *. specialize (IH H2). lia.
 Qed.
 
-Lemma fuel_le_length : forall j, no_float j = true -> (fuel_needed j <= length (render j))%nat.
+Lemma fuel_le_length : forall j, (fuel_needed j <= length (render_with pf j))%nat.
 Proof.
-  induction j using json_ind'; intro NF.
+  induction j using json_ind'.
   - simpl; lia.
   - destruct b; simpl; lia.
   - destruct z.
-    + change (render (JInt 0)) with (dec_N 0). destruct (dec_N_head 0) as (d & r & E & _). rewrite E. simpl. lia.
-    + change (render (JInt (Z.pos p))) with (dec_N (N.pos p)). destruct (dec_N_head (N.pos p)) as (d & r & E & _).
+    + change (render_with pf (JInt 0)) with (dec_N 0). destruct (dec_N_head 0) as (d & r & E & _). rewrite E. simpl. lia.
+    + change (render_with pf (JInt (Z.pos p))) with (dec_N (N.pos p)). destruct (dec_N_head (N.pos p)) as (d & r & E & _).
       rewrite E. simpl. lia.
-    + change (render (JInt (Z.neg p))) with (45 :: dec_N (N.pos p)). cbn [fuel_needed length]. lia.
-  - discriminate.
-  - simpl. rewrite app_length. simpl. lia.
-  - simpl in NF. rewrite forallb_forall in NF.
-    cbn [fuel_needed render length]. rewrite app_length. cbn [length].
-    assert (A : (length l <= length (join 44 (map render l)))%nat).
-    { rewrite <- (map_length render l) at 1. apply join_length_count.
+    + change (render_with pf (JInt (Z.neg p))) with (45 :: dec_N (N.pos p)). cbn [fuel_needed length]. lia.
+  - match goal with |- context [JFloat ?x] => destruct (float_token_head pf Hpf x) as (h & r & E & _) end.
+    cbn [render_with fuel_needed]. rewrite E. simpl. lia.
+  - cbn [render_with render fuel_needed]. unfold render_string. simpl. lia.
+  - cbn [fuel_needed render_with length]. rewrite app_length. cbn [length].
+    assert (A : (length l <= length (join 44 (map (render_with pf) l)))%nat).
+    { rewrite <- (map_length (render_with pf) l) at 1. apply join_length_count.
       rewrite Forall_forall. intros x Hx. apply in_map_iff in Hx. destruct Hx as (y & <- & Hy).
-      rewrite Forall_forall in H. specialize (H y Hy (NF y Hy)).
-      destruct y; simpl in *; lia. }
-    assert (B : (list_max (map fuel_needed l) <= length (join 44 (map render l)))%nat).
+      destruct (render_head y) as (b & r & E & _). rewrite E. simpl. lia. }
+    assert (B : (list_max (map fuel_needed l) <= length (join 44 (map (render_with pf) l)))%nat).
     { apply list_max_le. rewrite Forall_forall. intros n Hn. apply in_map_iff in Hn. destruct Hn as (y & <- & Hy).
-      rewrite Forall_forall in H. specialize (H y Hy (NF y Hy)).
-      assert ((length (render y) <= length (join 44 (map render l)))%nat) by (apply join_length_in, in_map; auto).
+      rewrite Forall_forall in H. specialize (H y Hy).
+      assert ((length (render_with pf y) <= length (join 44 (map (render_with pf) l)))%nat) by (apply join_length_in, in_map; auto).
       lia. }
     lia.
-  - simpl in NF. rewrite forallb_forall in NF.
-    rewrite render_obj_eq. cbn [fuel_needed length]. rewrite app_length. cbn [length].
+  - rewrite render_obj_eq. cbn [fuel_needed length]. rewrite app_length. cbn [length].
     assert (M : forall y, In y l -> (fuel_needed (snd y) <= length (member_bytes y))%nat /\ (1 <= length (member_bytes y))%nat).
-    { intros y Hy. rewrite Forall_forall in H. specialize (H y Hy). specialize (NF y Hy). destruct y as [k v].
-      simpl in *. specialize (H NF). unfold render_string. cbn [app length]. rewrite !app_length. cbn [length]. lia. }
+    { intros y Hy. rewrite Forall_forall in H. specialize (H y Hy). destruct y as [k v].
+      simpl in *. unfold render_string. cbn [app length]. rewrite !app_length. cbn [length]. lia. }
     assert (A : (length l <= length (join 44 (map member_bytes l)))%nat).
     { rewrite <- (map_length member_bytes l) at 1. apply join_length_count.
       rewrite Forall_forall. intros x Hx. apply in_map_iff in Hx. destruct Hx as (y & <- & Hy). apply M; auto. }
@@ -412,12 +485,26 @@ Proof.
     lia.
 Qed.
 
+(** * Headline, any float printer: the line reads back as the tree, floats as uninterpreted float tokens *)
+Theorem parse_render_with : forall j, parse (render_with pf j) = Some (zero_floats j).
+Proof.
+  intros j. unfold parse.
+  pose proof (parse_value_render_with j (length (render_with pf j)) (fuel_le_length j) [] I) as R.
+  rewrite app_nil_r in R. rewrite R. reflexivity.
+Qed.
+
+Theorem parse_line_render_with : forall j, parse_line (render_with pf j ++ [10]) = Some (zero_floats j).
+Proof.
+  intros j. unfold parse_line. rewrite rev_app_distr. cbn [rev app].
+  change (10 =? 10) with true. cbv iota. rewrite rev_involutive. apply parse_render_with.
+Qed.
+End AnyPrinter.
+
 (** * Headline: render then parse is the identity on float-free trees *)
 Theorem parse_render : forall j, no_float j = true -> parse (render j) = Some j.
 Proof.
-  intros j NF. unfold parse.
-  pose proof (parse_value_render j NF (length (render j)) (fuel_le_length j NF) [] I) as R.
-  rewrite app_nil_r in R. rewrite R. reflexivity.
+  intros j NF. rewrite <- (render_with_nofloat pf_zero j NF). rewrite (parse_render_with pf_zero pf_zero_token).
+  rewrite zero_floats_nofloat by exact NF. reflexivity.
 Qed.
 
 Theorem parse_line_render : forall j, no_float j = true -> parse_line (render_line j) = Some j.
@@ -440,8 +527,31 @@ Example parse_render_witness :
   no_float j = true /\ parse (render j) = Some j.
 Proof. vm_compute. split; reflexivity. Qed.
 
+(** non-vacuity of [float_token]: printers in the style of ryu's output (sign, fraction, exponent forms) qualify; text
+    that is not a JSON number does not *)
+Example float_token_examples :
+  float_token (fun _ => bs "-1.5e-7") /\ float_token (fun _ => bs "1e21") /\ float_token (fun _ => bs "0.30000000000000004") /\
+  float_token (fun _ => bs "2.5E+3") /\
+  ~ float_token (fun _ => bs "NaN") /\ ~ float_token (fun _ => bs "1.") /\ ~ float_token (fun _ => bs ".5") /\
+  ~ float_token (fun _ => bs "1e") /\ ~ float_token (fun _ => bs "17").
+Proof.
+  assert (Y : forall t, (forall rest, stop rest -> parse_value 1 (t ++ rest) = Some (JFloat 0, rest)) -> float_token (fun _ => t))
+    by (intros t H b rest St; apply H; exact St).
+  assert (N : forall t, parse_value 1 t <> Some (JFloat 0, []) -> ~ float_token (fun _ => t)).
+  { intros t H F. specialize (F 0 [] I). rewrite app_nil_r in F. contradiction. }
+  repeat split; first
+    [ apply Y; intros rest St; destruct rest as [|c r]; [reflexivity|]; simpl in St; destruct St as [-> | [-> | ->]]; reflexivity
+    | apply N; vm_compute; discriminate ].
+Qed.
+
+Example parse_with_floats :
+  let j := JObj [(bs "f", JFloat 4607182418800017408); (bs "a", JArr [JFloat 0; JInt 3])] in
+  parse (render_with (fun _ => bs "1.0") j) = Some (zero_floats j).
+Proof. vm_compute. reflexivity. Qed.
+
 (** the parser is strict: these are NOT accepted (raw LF in a string; two values; duplicate keys are accepted as a list
     and rejected by [NoDup] in C14_unique_keys) *)
 Example parse_rejects :
-  parse [34; 10; 34] = None /\ parse (bs "{}{}") = None /\ parse (bs "[01]") = None /\ parse (bs "[1,]") = None.
+  parse [34; 10; 34] = None /\ parse (bs "{}{}") = None /\ parse (bs "[01]") = None /\ parse (bs "[1,]") = None /\
+  parse (bs "[1.]") = None /\ parse (bs "[-]") = None /\ parse (bs "[1e+]") = None /\ parse (bs "[01.5]") = None.
 Proof. vm_compute. repeat split; reflexivity. Qed.
